@@ -73,6 +73,14 @@ func c12Value(h *H, kind int) (c object.PanObject, want bool) {
 		c, want = h.Eval(`(1:1)`), true
 	case 13: // function value
 		c, want = h.Eval(`{|x| x}`), true
+	case 14: // B is not callable and not a boolean: does not "yield true"
+		c, want = h.Eval(`{B: 1}`), false
+	case 15:
+		c, want = h.Eval(`{B: nil}`), false
+	case 16: // B is a method that returns a non-boolean (marks 50)
+		c, want = h.Eval(`{B: m{|| mark(50); 5}}`), false
+	case 17: // a value with no B at all
+		c, want = h.Eval(`BaseObj.bear({})`), false
 	}
 	h.Set("c", c)
 	return
@@ -88,10 +96,12 @@ func H_C12_truth() {
 	rt.Assert(!isErr, "condition value must be constructible")
 	h.Reset()
 
-	// the B property itself
-	b := h.EvalNoPanic(`c.B`)
-	rt.Assert((b == object.BuiltInTrue) == want, "B must be true exactly for non-zero values")
-	rt.Assert(b == object.BuiltInTrue || b == object.BuiltInFalse, "B must yield a boolean")
+	// the B property itself (kinds 14..17 have a non-boolean B or none: they count as false)
+	if kind < 14 {
+		b := h.EvalNoPanic(`c.B`)
+		rt.Assert((b == object.BuiltInTrue) == want, "B must be true exactly for non-zero values")
+		rt.Assert(b == object.BuiltInTrue || b == object.BuiltInFalse, "B must yield a boolean")
+	}
 
 	// if / else: exactly one branch
 	h.Reset()
@@ -109,13 +119,15 @@ func H_C12_truth() {
 	} else {
 		rt.Assert(h.TraceIsSkipping(skipB) && isNil(r), "if must skip its body and give nil for a false condition")
 	}
-	// !
+	// ! (a value without any properties has no ! either)
 	h.Reset()
-	r = h.EvalNoPanic(`!c`)
-	if want {
-		rt.Assert(r == object.BuiltInFalse, "!c must be false for a true condition")
-	} else {
-		rt.Assert(r == object.BuiltInTrue, "!c must be true for a false condition")
+	if kind != 17 {
+		r = h.EvalNoPanic(`!c`)
+		if want {
+			rt.Assert(r == object.BuiltInFalse, "!c must be false for a true condition")
+		} else {
+			rt.Assert(r == object.BuiltInTrue, "!c must be true for a false condition")
+		}
 	}
 	// && : right operand only when the left is true; result is the deciding operand
 	h.Reset()
